@@ -211,12 +211,27 @@ CHECKS = {
              "legality of the searched or book move (C03/C16 rules), output interleaving between threads.",
         design_ref="DESIGN.md section 4, C07",
         note=TB_COMMON + " Effect table tables/effects.json names the blocking callees."),
+    "C06": dict(
+        category="other",
+        technique="static analysis: term and dominance rules over the MIR of analyze_recursive / quiescence_search / analyze_iterative for the negamax, fail-hard "
+                  "alpha-beta and bound-typed transposition-table discipline (window swap and negation, cut-off value and stored bound kind, provenance of every "
+                  "assignment to alpha/beta, final entry kind, terminal scoring arguments, remaining-depth guard of every use of a probed entry, root window, max merge)",
+        text="Does NOT decide the property's claim (a reported mate score is a forced mate; forced mates within the depth are found): that is a statement about the "
+             "game-theoretic value over all positions, depths, seeds and schedules and needs an exact oracle. Decides the discipline each clause of which is a "
+             "necessary condition of it: children searched with (-beta, -alpha) and used negated, at ply+1 with one extension added to both depths; `child >= beta` "
+             "returns beta and stores (LowerBound, beta, cutting move, depths); alpha only ever the caller's alpha, max with a LowerBound entry, a child value under "
+             "`not >= beta and > alpha`, or the quiescence stand-pat under `alpha < stand-pat`; beta only the caller's or min with an UpperBound entry; the final "
+             "entry is (UpperBound unless a child raised alpha, then Exact; best move; depths; alpha) and alpha is returned; a node without a searched child is "
+             "scored evaluate(state, side to move, ply of the node); every use of a probed entry is under entry.max_depth - entry.depth >= max_depth - "
+             "current_depth, returned only if Exact or the window closed; root window (-mate_in_ply(0), mate_in_ply(0)) at ply 0; workers merged by max; "
+             "deepening stops early only at best_eval >= POS_INF; quiescence: stand-pat for quiet positions, fail-hard on stand-pat >= beta, captures only; "
+             "Evaluation's negation and ordering are numeric; mate scores monotone in the ply (C05 V3 re-run).",
+        design_ref="DESIGN.md section 4, C06",
+        note=TB_COMMON + " C03 (only legal moves searched), C05 (terminal scores), C08/C15 (table keys and faithfulness) are assumed."),
 }
 
 NOT_BUILT_REASON = "check not built yet (see DESIGN.md for the plan)"
 NA = {
-    "C06": "game-theoretic value of alpha-beta/TT/quiescence/SMP merge over all positions and depths quantifies over runtime values no sound "
-           "static argument in reach can bound; its structural necessary conditions are already decided under C03/C05/C15/C17 (DESIGN.md section 8)",
 }
 
 
